@@ -6,12 +6,24 @@ import asyncio
 import time
 
 LOG = []            # ('sync' | 'async', delay) in program order
+NOW = [1000000.0]   # the virtual wall clock: time.time / time.monotonic / time.perf_counter read it; sleeping and slow attempts advance it
 _real_sleep = time.sleep
 _real_asleep = asyncio.sleep
 
 
 def _sleep(delay):
     LOG.append(('sync', delay))
+    if isinstance(delay, (int, float)) and delay > 0:
+        NOW[0] += delay
+
+
+def advance(seconds):
+    """an operation of the environment (a slow transport) takes this long"""
+    NOW[0] += seconds
+
+
+def _now():
+    return NOW[0]
 
 
 async def _asleep(delay, result=None):
@@ -21,6 +33,7 @@ async def _asleep(delay, result=None):
 
 
 def install():
+    time.time = time.monotonic = time.perf_counter = _now
     time.sleep = _sleep
     asyncio.sleep = _asleep
     asyncio.tasks.sleep = _asleep
